@@ -20,6 +20,10 @@ Frag == /\ Ev.t = "frag" /\ UNCHANGED <<seq, T>>
            ELSE IF 60 * Ev.allocated > 100 * (Ev.inuse + 3 * T + Ev.tables * Ev.maxe)
                 THEN Fail("allocation not bounded after churn and compaction in the " \o where \o ": " \o ToString(Ev.tables) \o " tables for "
                           \o ToString(Ev.inuse) \o " bytes in use")
+           \* the same bound against the data that is alive: entries whose expiry has passed are not live data, wherever they are stored
+           ELSE IF 60 * Ev.allocated > 100 * (Ev.alive + 3 * T + Ev.tables * Ev.maxe)
+                THEN Fail("storage of expired entries is not given back in the " \o where \o ": " \o ToString(Ev.tables) \o " tables for "
+                          \o ToString(Ev.alive) \o " bytes of live data")
            ELSE Ok
 Next == i <= Len(Trace) /\ i' = i + 1 /\ (Reset \/ Frag)
 Spec == i = 1 /\ err = "" /\ seq = 0 /\ T = 0 /\ [][Next]_vars
